@@ -12,6 +12,7 @@ RULE = ("Hypothesis-generated configurations over all 37 crops (calendar and the
         "configuration: some in-season day shows stress (Tr < 0.99 TrPot, or canopy below the no-stress canopy), or the roots "
         "meet a restrictive layer or the water-table bound is active; distinct = configuration hash.")
 ASSUMPTIONS = [
+    "a run whose initial profile lies above saturation or below air-dry in some compartment (possible when depth points of one layer are extended into a layer with other hydraulic properties) is outside the domain of valid configurations: counted under the label start_outside_airdry_saturation, not evaluated",
     "crop parameters (CCx, Zmin, Zmax, HI0, dHI0, Tbase, Tupp) are read from the model's per-season crop object after the run",
     "a negative dHI0 in the catalogue (-9 = not applicable: SugarCane, AlfalfaGDD) is read as 'no increase allowed'",
     "tolerances: 1e-9 absolute on dimensionless quantities, 1e-9 relative on the cumulative degree-day sum, 1e-12 on root shrinkage",
@@ -38,7 +39,7 @@ def restrictive(tr):
 def evaluate(cfg):
     tr, res = observe(cfg)
     res.sample = base_sample(cfg, tr)
-    if tr.n == 0:
+    if tr.n == 0 or not tr.start_ok:
         return res
     idx, n = rows(tr)
     if n == 0:
